@@ -885,3 +885,17 @@ func CopyDir(src, dst string) error {
 		return os.WriteFile(target, b, info.Mode())
 	})
 }
+
+// EditDoc changes only the docstring of one target (a docstring is not part of the function
+// environment: no target may re-execute because of it, and no record may lose what it says).
+func (e *Engine) EditDoc(label string) bool {
+	t := e.P.Target(label)
+	if t == nil {
+		return false
+	}
+	e.M.tick()
+	t.Doc = fmt.Sprintf("Doc edited at %d.", e.M.Clock)
+	e.P.WriteFile(e.S.Root, "pkg:"+t.Pkg)
+	e.step("edit", "docstring "+label)
+	return true
+}
